@@ -266,6 +266,7 @@ def run(chk, tier, only_rule=None):
     # discipline are part of the patch semantics and of its atomicity
     r19_5(chk, facts)
     from . import c14
+    c14.r14_3(chk, facts)
     c14.r14_4(chk, facts)
     c14.r14_5(chk, facts)
     c14.r14_6(chk, facts)
